@@ -77,6 +77,17 @@ func c08Gen(r *rand.Rand, tier string) []Case {
 		"vspend ? ? ? ? ? # k=4 path=send amt=S+1",
 		"vmon # k=4 path=evm-value amt=S",
 	})
+	// fixed case: everything vested at once and locked up for long, all of it staked, then the account asks to become a
+	// plain account again (which drops the schedule)
+	out = append(out, Case{
+		"vgrant # k=5 off=-2 lockup=100000@0:7000000 vesting=1@0:7000000",
+		"vtime # dt=5",
+		"vunconv # k=5",
+		"vspend ? ? ? ? ? # k=5 path=delegate-msg amt=B",
+		"vunconv # k=5",
+		"vmon # k=5 path=undelegate amt=B",
+		"vspend ? ? ? ? ? # k=5 path=send amt=S+1",
+	})
 	paths := []string{"send", "multisend", "fee", "daofund", "govdeposit", "send", "fee"}
 	amts := []string{"S-1", "S+1", "S/2", "S/2", "B", "1", "1000", "S+1", "S"}
 	for i := 0; i < n; i++ {
@@ -140,7 +151,9 @@ func c08Gen(r *rand.Rand, tier string) []Case {
 					c = append(c, fmt.Sprintf("vmon # k=%d path=%s amt=%s", k, pick(r, []string{"evm-value", "delegate-precompile"}), pick(r, amts)))
 				}
 			default:
-				if r.Intn(3) == 0 {
+				if r.Intn(4) == 0 {
+					c = append(c, fmt.Sprintf("vunconv # k=%d", k))
+				} else if r.Intn(3) == 0 {
 					c = append(c, fmt.Sprintf("vclaw # k=%d", k))
 				} else {
 					c = append(c, fmt.Sprintf("vmon # k=%d path=undelegate amt=%s", k, pick(r, []string{"S/2", "1", "B"})))
@@ -354,6 +367,28 @@ func c08Exec(c Case) (outs []string, fails []Failure, tags []string) {
 						}
 					}
 				}
+			case "vunconv":
+				// MsgConvertVestingAccount: back to a plain account, which drops the schedules
+				out = "skip"
+				addr := kr.GetAccAddr(k)
+				va0, ok := app.AccountKeeper.GetAccount(ctx, addr).(*vestingtypes.ClawbackVestingAccount)
+				if !ok {
+					return
+				}
+				now := ctx.BlockTime()
+				uv := va0.GetUnlockedCoins(now).Min(va0.GetVestedCoins(now))
+				held := va0.OriginalVesting.Sub(uv...) // still unvested or locked up, wherever the coins are at the moment
+				cctx, write := ctx.CacheContext()
+				if _, err := app.VestingKeeper.ConvertVestingAccount(sdk.WrapSDKContext(cctx), vestingtypes.NewMsgConvertVestingAccount(addr)); err != nil {
+					tags = append(tags, "unconvert-refused")
+					return
+				}
+				write()
+				tags = append(tags, "unconvert-ok")
+				if !held.IsZero() || c08GhostUnvested(k, now.Unix()).Sign() > 0 {
+					fl("C08:became-plain-account-while-locked", fmt.Sprintf("the vesting account was turned into a plain account although %s of its grant is still unvested or locked up (delegated: %s): once undelegated, those coins can leave", held, va0.DelegatedFree.Add(va0.DelegatedVesting...)))
+				}
+				delete(c08Ghost, k)
 			case "vtime":
 				out = "skip"
 				if err := nw.NextBlockAfter(time.Duration(vmIdx(kv["dt"])) * time.Second); err != nil {
